@@ -382,7 +382,14 @@ class Template:
                             self, data, filename, path, self.module_writer
                         )
                 module = compat.load_module(self.module_id, path)
-                if module._magic_number != codegen.MAGIC_NUMBER:
+                if (
+                    module._magic_number != codegen.MAGIC_NUMBER
+                    # the path of a module file derives from the URI alone:
+                    # the file may have been generated from a template of
+                    # that URI in another directory
+                    or getattr(module, "_template_filename", filename)
+                    != filename
+                ):
                     data = util.read_file(filename)
                     with _drop_expression_warnings():
                         _compile_module_file(
